@@ -512,7 +512,10 @@ type Lemma struct {
 	Hints   []string
 }
 
+type LockRef struct{ Pkg, Type, Mutex string }
+
 type Contracts struct {
+	LockOrders [][]LockRef
 	Funcs    map[string]*FuncContract // key pkg+"|"+name
 	Loops    map[string]*LoopContract // key pkg|func#n
 	Preds    map[string]*PredDef      // key name (global namespace)
@@ -545,7 +548,7 @@ type Forward struct {
 
 var keywords = map[string]bool{"func": true, "trusted": true, "requires": true, "ensures": true, "ensures_panic": true,
 	"modifies": true, "may_panic": true, "noreturn": true, "inline": true, "mode": true, "props": true, "loop": true, "invariant": true,
-	"decreases": true, "pred": true, "spec": true, "ghost": true, "field": true, "monitor": true, "guards": true, "inv": true,
+	"decreases": true, "pred": true, "spec": true, "ghost": true, "field": true, "monitor": true, "lockorder": true, "guards": true, "inv": true,
 	"objinv": true, "rely": true, "lemma": true, "ufun": true, "axiom": true, "universal": true, "atomic": true, "state": true, "guarantee": true, "induction": true, "forwards": true, "package": true, "pure": true, "results": true, "uses": true, "hint": true}
 
 // splitTop splits at commas that are not inside parentheses.
@@ -957,6 +960,18 @@ func (cs *Contracts) loadFile(path, repo string) error {
 				fp.Guard = fs[2]
 			}
 			cs.Policies = append(cs.Policies, fp)
+		case "lockorder": // lockorder A.mu < B.mu < C.mu : a lock further left must never be acquired while one further right is held
+			reset()
+			var chain []LockRef
+			for _, part := range strings.Split(l.rest, "<") {
+				part = strings.TrimSpace(part)
+				i := strings.LastIndex(part, ".")
+				if i <= 0 {
+					return fail(l, fmt.Errorf("lockorder wants Type.mutex < Type.mutex"))
+				}
+				chain = append(chain, LockRef{Pkg: pkg, Type: part[:i], Mutex: part[i+1:]})
+			}
+			cs.LockOrders = append(cs.LockOrders, chain)
 		case "monitor": // monitor Type.mutex self
 			reset()
 			fs := strings.Fields(l.rest)
